@@ -287,7 +287,8 @@ impl NetcodeClient {
 
         match self.state {
             ClientState::SendingConnectionRequest | ClientState::SendingConnectionResponse => {
-                let expire_seconds = self.connect_token.expire_timestamp - self.connect_token.create_timestamp;
+                // A token whose expiry precedes its creation is already expired
+                let expire_seconds = self.connect_token.expire_timestamp.saturating_sub(self.connect_token.create_timestamp);
                 let connection_expired = (self.current_time - self.connect_start_time).as_secs() >= expire_seconds;
                 if connection_expired {
                     self.state = ClientState::Disconnected(DisconnectReason::ConnectTokenExpired);
